@@ -74,6 +74,29 @@ pub struct Job {
     /// compilation passes through all compiler phases again while the other jobs run
     #[serde(default)]
     pub recompile: u32,
+    /// scenario B, the shape of the CLI: this job is an audio thread playing `src` through a
+    /// `VmDspRuntime` while a compile thread of its own compiles the edits and hands the programs
+    /// over a channel (one `try_recv` per block, `try_hot_swap` on arrival)
+    #[serde(default)]
+    pub live: Option<Live>,
+    /// what the language server does with a buffer on every change (`analyze_source`, mirrored):
+    /// tokens, CST, AST, type check with module info; the result is the ordered diagnostics plus
+    /// the function signatures offered for signature help. No code is generated or run
+    #[serde(default)]
+    pub analysis: bool,
+}
+
+#[derive(Clone, Debug, Serialize, Deserialize, PartialEq)]
+pub struct Live {
+    /// the sources saved after the first one, in order (some do not compile)
+    pub edits: Vec<String>,
+    /// frames per audio callback
+    pub block: u32,
+    /// interner operations (= scheduling points) the audio thread performs per block: paces the
+    /// audio thread against the compile thread (a compilation is 1e5..1e6 such operations)
+    pub points: u32,
+    /// blocks played after the compile thread has gone
+    pub tail: u32,
 }
 
 #[derive(Clone, Debug, Serialize, Deserialize, PartialEq)]
@@ -107,6 +130,11 @@ pub struct Scenario {
     /// get many interleavings, heavy ones few
     #[serde(default)]
     pub step_budget: u64,
+    /// cooperative fault point H8: threads may also be suspended *inside* the session lock's
+    /// critical section (a preemptive OS does that; shuttle on its own switches only at sync
+    /// operations, so without this point nobody ever finds the lock taken)
+    #[serde(default)]
+    pub preempt_in_lock: bool,
 }
 
 fn scratch_dir() -> PathBuf {
@@ -159,11 +187,248 @@ fn macro_file_plugin() -> Box<dyn mimium_lang::plugin::Plugin> {
     })
 }
 
+static ST_LIVE_SWAPS: std::sync::atomic::AtomicU64 = std::sync::atomic::AtomicU64::new(0);
+static ST_LIVE_SWAPS_WHILE_COMPILING: std::sync::atomic::AtomicU64 = std::sync::atomic::AtomicU64::new(0);
+static ST_LIVE_FAILED_EDITS: std::sync::atomic::AtomicU64 = std::sync::atomic::AtomicU64::new(0);
+static ST_LIVE_BLOCKS: std::sync::atomic::AtomicU64 = std::sync::atomic::AtomicU64::new(0);
+
+/// One audio session on a `VmDspRuntime`: `swaps[k]` is the block at whose start program `k`
+/// is swapped in (blocks are `block` frames long). Returns the output words of every frame.
+fn live_play(
+    src: &str,
+    path: Option<PathBuf>,
+    programs: &[mimium_lang::runtime::vm::Program],
+    swaps: &[u64],
+    blocks: u64,
+    block: u32,
+) -> Result<Vec<u64>, String> {
+    use mimium_audiodriver::driver::{Driver, RuntimeData};
+    use mimium_lang::runtime::{ProgramPayload, Time};
+    let d = mimium_audiodriver::backends::local_buffer::LocalBufferDriver::new(0);
+    let count = d.count.clone();
+    let plugins: Vec<Box<dyn mimium_lang::plugin::Plugin>> = vec![Box::new(d.get_as_plugin())];
+    let mut ctx = ExecContext::new(plugins.into_iter(), path, Config::default());
+    ctx.prepare_machine(src).map_err(|e| format!("{} diagnostics", e.len()))?;
+    let _ = ctx.run_main();
+    let mut rt = RuntimeData::try_from(&mut ctx).map_err(|e| e.message)?;
+    let n_out = rt.io_channels().map(|io| io.output as usize).unwrap_or(0);
+    let mut out = vec![];
+    let mut t = 0u64;
+    for b in 0..blocks {
+        if let Some(k) = swaps.iter().position(|s| *s == b) {
+            if !rt.resume_with_program(ProgramPayload::VmProgram(programs[k].clone())) {
+                return Err("try_hot_swap returned false".into());
+            }
+        }
+        for _ in 0..block {
+            count.store(t, std::sync::atomic::Ordering::Relaxed);
+            let _ = rt.runtime.run_dsp(Time(t));
+            out.extend(rt.runtime.get_output(n_out).iter().map(|x| x.to_bits()));
+            t += 1;
+        }
+    }
+    Ok(out)
+}
+
+/// Scenario B. The job's own thread is the audio thread; it spawns the compile thread. The audio
+/// outputs depend on the blocks at which the programs arrive (decided by the schedule), so they
+/// are judged inside the job against a single-threaded replay with the same arrival blocks; the
+/// job's reported result (compared with the job run alone) is the listing of every compiled edit
+/// plus the outputs of a replay with canonical arrival blocks.
+fn run_live(job: &Job, live: &Live, src: &str, path: Option<PathBuf>) -> JobResult {
+    use mimium_audiodriver::driver::{Driver, RuntimeData};
+    use mimium_lang::runtime::{ProgramPayload, Time};
+    use std::sync::atomic::Ordering::Relaxed;
+    let point = || {
+        let _ = mimium_lang::interner::ToSymbol::to_symbol(&"dsp");
+    };
+    let d = mimium_audiodriver::backends::local_buffer::LocalBufferDriver::new(0);
+    let count = d.count.clone();
+    let plugins: Vec<Box<dyn mimium_lang::plugin::Plugin>> = vec![Box::new(d.get_as_plugin())];
+    let mut ctx = ExecContext::new(plugins.into_iter(), path.clone(), Config::default());
+    if let Err(errs) = ctx.prepare_machine(src) {
+        return JobResult::Diagnostics(errs.iter().map(|e| e.get_message()).collect());
+    }
+    let listing0 = fnv(format!("{}", ctx.get_vm().unwrap().prog).as_bytes());
+    let _ = ctx.run_main();
+    let mut rt = match RuntimeData::try_from(&mut ctx) {
+        Ok(rt) => rt,
+        Err(e) => return JobResult::Diagnostics(vec![e.message]),
+    };
+    let n_out = rt.io_channels().map(|io| io.output as usize).unwrap_or(0);
+    let compiler = match ctx.take_compiler() {
+        Some(c) => c,
+        None => return JobResult::Panicked("live: no compiler".into()),
+    };
+    let (tx, rx) = shuttle::sync::mpsc::channel::<ProgramPayload>();
+    let edits = live.edits.clone();
+    let busy = std::sync::Arc::new(std::sync::atomic::AtomicBool::new(false));
+    let busy2 = busy.clone();
+    // the compile thread: `AsyncCompilerService::run` serving one request per save
+    let compile = shuttle::thread::spawn(move || {
+        let mut listings = vec![];
+        let mut programs = vec![];
+        for e in &edits {
+            busy2.store(true, Relaxed);
+            let res = compiler.emit_bytecode(e);
+            busy2.store(false, Relaxed);
+            match res {
+                Ok(p) => {
+                    listings.push(fnv(format!("{p}").as_bytes()));
+                    programs.push(p.clone());
+                    let _ = tx.send(ProgramPayload::VmProgram(p));
+                }
+                Err(errs) => {
+                    ST_LIVE_FAILED_EDITS.fetch_add(1, Relaxed);
+                    listings.push(fnv(format!("diagnostics:{}", errs.len()).as_bytes()));
+                }
+            }
+        }
+        drop(tx);
+        (listings, programs)
+    });
+    // the audio thread: `NativeAudioData::process`, one `try_recv` per block, then the frames
+    let mut out = vec![];
+    let mut swaps: Vec<u64> = vec![];
+    let (mut t, mut blocks, mut tail, mut gone) = (0u64, 0u64, 0u32, false);
+    let max_blocks = 4096u64;
+    loop {
+        match rx.try_recv() {
+            Ok(p) => {
+                if !rt.resume_with_program(p) {
+                    return JobResult::Panicked("live: try_hot_swap returned false".into());
+                }
+                swaps.push(blocks);
+                ST_LIVE_SWAPS.fetch_add(1, Relaxed);
+                if busy.load(Relaxed) {
+                    ST_LIVE_SWAPS_WHILE_COMPILING.fetch_add(1, Relaxed);
+                }
+            }
+            Err(shuttle::sync::mpsc::TryRecvError::Disconnected) => gone = true,
+            Err(shuttle::sync::mpsc::TryRecvError::Empty) => {}
+        }
+        for _ in 0..live.block {
+            count.store(t, Relaxed);
+            let _ = rt.runtime.run_dsp(Time(t));
+            out.extend(rt.runtime.get_output(n_out).iter().map(|x| x.to_bits()));
+            t += 1;
+        }
+        blocks += 1;
+        for _ in 0..live.points {
+            point();
+        }
+        if gone {
+            tail += 1;
+            if tail > live.tail {
+                break;
+            }
+        }
+        if blocks >= max_blocks {
+            break;
+        }
+    }
+    ST_LIVE_BLOCKS.fetch_add(blocks, Relaxed);
+    let (listings, programs) = match compile.join() {
+        Ok(v) => v,
+        Err(_) => return JobResult::Panicked("live: compile thread panicked".into()),
+    };
+    // single-threaded replay of the same arrival blocks
+    match live_play(src, path.clone(), &programs, &swaps, blocks, live.block) {
+        Ok(replay) => {
+            if replay != out {
+                let at = replay.iter().zip(out.iter()).position(|(a, b)| a != b).unwrap_or(replay.len().min(out.len()));
+                return JobResult::Panicked(format!(
+                    "live: audio thread diverged from the single-threaded replay of the same swap blocks at output word {at} ({} swaps)",
+                    swaps.len()
+                ));
+            }
+        }
+        Err(e) => return JobResult::Panicked(format!("live: replay failed: {e}")),
+    }
+    // canonical arrival blocks: program k at block k + 1
+    let canon: Vec<u64> = (0..programs.len() as u64).map(|k| k + 1).collect();
+    let outputs = match live_play(src, path, &programs, &canon, programs.len() as u64 + 2 + job.n, live.block) {
+        Ok(o) => o,
+        Err(e) => return JobResult::Panicked(format!("live: canonical replay failed: {e}")),
+    };
+    let mut listing = listing0;
+    for l in listings {
+        listing = fnv(format!("{listing}:{l}").as_bytes());
+    }
+    JobResult::Ran { outputs, listing, wasm: 0 }
+}
+
+/// Mirror of `mimium-language-server/src/analysis.rs::analyze_source` (that crate pulls in
+/// tokio / tower-lsp; the calls into mimium-lang are the same, in the same order).
+fn run_analysis(src: &str, path: Option<PathBuf>) -> JobResult {
+    use mimium_lang::ast::Expr;
+    use mimium_lang::compiler::mirgen;
+    use mimium_lang::compiler::parser::{parse_cst, parse_to_expr, preparse, tokenize};
+    let mut lines = vec![];
+    let tokens = tokenize(src);
+    let pre = preparse(&tokens);
+    let (_root, _arena, tokens, cst_errors) = parse_cst(tokens, &pre);
+    lines.push(format!("tokens:{} cst-errors:{}", tokens.len(), cst_errors.len()));
+    let uri = path.as_ref().map(|p| format!("file://{}", p.display())).unwrap_or_else(|| "file:///buffer.mmm".into());
+    let (ast, module_info, parse_errs) = parse_to_expr(src, Some(PathBuf::from(uri)));
+    let mut ctx = ExecContext::new(Vec::<Box<dyn mimium_lang::plugin::Plugin>>::new().into_iter(), None, Config::default());
+    ctx.prepare_compiler();
+    let builtin_types = ctx.get_compiler().unwrap().get_ext_typeinfos();
+    let checked = if ast.has_staging_constructs() { ast.wrap_to_staged_expr() } else { ast };
+    let (_, _, type_errs) = mirgen::typecheck_with_module_info(checked, &builtin_types, None, module_info);
+    for e in parse_errs.iter().chain(type_errs.iter()) {
+        let labels: Vec<String> =
+            e.get_labels().iter().map(|(loc, msg)| format!("{}..{}:{}", loc.span.start, loc.span.end, msg)).collect();
+        lines.push(format!("{} [{}]", e.get_message(), labels.join("; ")));
+    }
+    // signature help: top-level function definitions with their annotated types
+    fn walk(e: mimium_lang::interner::ExprNodeId, out: &mut Vec<String>, depth: usize) {
+        if depth > 4000 {
+            return;
+        }
+        match e.to_expr() {
+            Expr::LetRec(id, value, next) => {
+                if let Expr::Lambda(params, ret, _) = value.to_expr() {
+                    let ps: Vec<String> = params
+                        .iter()
+                        .map(|p| {
+                            let t = format!("{}", p.ty.to_type());
+                            format!("{}:{}{}", p.id.as_str(), if t.contains('?') { "_".into() } else { t }, if p.default_value.is_some() { "=" } else { "" })
+                        })
+                        .collect();
+                    let r = ret.map(|r| format!("{}", r.to_type())).filter(|t| !t.contains('?')).unwrap_or_default();
+                    out.push(format!("sig:{}({})->{}", id.id.as_str(), ps.join(","), r));
+                }
+                if let Some(n) = next {
+                    walk(n, out, depth + 1);
+                }
+            }
+            Expr::Let(_, _, Some(n)) => walk(n, out, depth + 1),
+            Expr::Then(a, b) => {
+                walk(a, out, depth + 1);
+                if let Some(b) = b {
+                    walk(b, out, depth + 1);
+                }
+            }
+            Expr::Bracket(i) => walk(i, out, depth + 1),
+            _ => {}
+        }
+    }
+    walk(ast, &mut lines, 0);
+    JobResult::Diagnostics(lines)
+}
+
 fn run_job(job: &Job) -> JobResult {
     let (src, path) = job.src.load();
     let r = catch_unwind(AssertUnwindSafe(|| {
         for _ in 0..job.stagger {
             let _ = mimium_lang::interner::ToSymbol::to_symbol(&"dsp");
+        }
+        if let Some(live) = &job.live {
+            return run_live(job, live, &src, path.clone());
+        }
+        if job.analysis {
+            return run_analysis(&src, path.clone());
         }
         let plugins: Vec<Box<dyn mimium_lang::plugin::Plugin>> =
             if src.contains("verif_macro_file_tag") { vec![macro_file_plugin()] } else { vec![] };
@@ -728,6 +993,101 @@ fn gen_text(r: &mut Rng) -> String {
     s
 }
 
+/// One version of a live-coded program: user sum (the VM consults the interner for its type at
+/// run time), a boxed list built per sample, a record, state cells. `voices` decides the layout
+/// (an edit that changes it makes the swap migrate state through the tree diff), `ks` the constants,
+/// `broken` the fault (1 = type error, 2 = truncated file, 3 = unknown identifier).
+fn live_source(w: &[&str], ks: &[f64], voices: u64, boxed: bool, broken: u64) -> String {
+    let mut s = String::new();
+    s.push_str(&format!("type T{} = A{}(float) | B{}(float,float)\n", w[0], w[1], w[2]));
+    s.push_str(&format!(
+        "fn f{f}(s:T{t}) -> float {{\n  match s {{\n    A{a}(r) => r * {:?},\n    B{b}(p,q) => p * q + {:?}\n  }}\n}}\n",
+        ks[0], ks[1], f = w[3], t = w[0], a = w[1], b = w[2]
+    ));
+    if boxed {
+        s.push_str(&format!(
+            "type rec L{l} = N{l} | C{l}(float, L{l})\nfn sum{l}(xs: L{l}) -> float {{\n  match xs {{\n    N{l} => 0.0,\n    C{l}(h, t) => h + sum{l}(t)\n  }}\n}}\n",
+            l = w[11]
+        ));
+    }
+    s.push_str(&format!(
+        "fn h{h}(x){{\n  let r = {{ {f1} = x, {f2} = x * {:?} }}\n  r.{f1} + r.{f2}\n}}\n",
+        ks[2], h = w[4], f1 = w[5], f2 = w[6]
+    ));
+    s.push_str(&format!("fn c{c}(inc){{\n  self + inc\n}}\n", c = w[8]));
+    s.push_str(&format!("fn d{d}(x){{\n  mem(x) * {:?} + self * 0.5\n}}\n", ks[3], d = w[9]));
+    s.push_str(&format!("fn e{e}(x){{\n  delay(8, x, {:?})\n}}\n", (ks[4] as u64 % 6 + 1) as f64, e = w[10]));
+    if broken == 1 {
+        s.push_str(&format!("fn bad{b}(){{\n  let (p,q) = {:?}\n  p + q\n}}\n", ks[0], b = w[12]));
+    }
+    let mut body = format!("  let t = c{c}({:?})\n", ks[5], c = w[8]);
+    let mut sum = format!("f{f}(A{a}(t)) + f{f}(B{b}(t, 2.0)) + h{h}(t)", f = w[3], a = w[1], b = w[2], h = w[4]);
+    if voices & 1 != 0 {
+        body.push_str(&format!("  let u = d{d}(t)\n", d = w[9]));
+        sum.push_str(" + u");
+    }
+    if voices & 2 != 0 {
+        body.push_str(&format!("  let v = e{e}(t)\n", e = w[10]));
+        sum.push_str(" + v");
+    }
+    if voices & 4 != 0 {
+        body.push_str(&format!("  let q = c{c}(0.25)\n", c = w[8]));
+        sum.push_str(" + q");
+    }
+    if boxed {
+        body.push_str(&format!("  let xs = C{l}(t, C{l}({:?}, N{l}))\n", ks[2], l = w[11]));
+        sum.push_str(&format!(" + sum{l}(xs)", l = w[11]));
+    }
+    if broken == 3 {
+        sum.push_str(&format!(" + nowhere_{}", w[13]));
+    }
+    s.push_str(&format!("fn dsp(){{\n{body}  {sum}\n}}\n"));
+    if broken == 2 {
+        let cut = s.len() * 3 / 5;
+        s.truncate(cut);
+    }
+    s
+}
+
+fn gen_live_job(r: &mut Rng) -> Job {
+    let mut w: Vec<&str> = WORDS.to_vec();
+    r.shuffle(&mut w);
+    let boxed = r.chance(1, 2);
+    let mut ks: Vec<f64> = (0..6).map(|_| r.range(1, 40) as f64 * 0.25).collect();
+    let mut voices = r.below(8);
+    let first = live_source(&w, &ks, voices, boxed, 0);
+    let n_edits = r.range(1, 4);
+    let mut edits = vec![];
+    for _ in 0..n_edits {
+        let mut broken = 0;
+        match r.below(5) {
+            0 => {
+                let i = r.below(6) as usize;
+                ks[i] = r.range(1, 40) as f64 * 0.25;
+            }
+            1 | 2 => voices ^= 1 << r.below(3),
+            3 => broken = r.range(1, 3),
+            _ => {}
+        }
+        edits.push(live_source(&w, &ks, voices, boxed, broken));
+    }
+    Job {
+        src: Src::Text(first),
+        n: *r.pick(&[1u64, 2, 8]),
+        wasm: false,
+        stagger: 0,
+        driver: None,
+        recompile: 0,
+        analysis: false,
+        live: Some(Live {
+            edits,
+            block: *r.pick(&[1u32, 2, 3, 8]),
+            points: *r.pick(&[200u32, 1000, 4000, 16000]),
+            tail: r.range(1, 3) as u32,
+        }),
+    }
+}
+
 fn gen_scenario(seed: u64) -> Scenario {
     let root = Rng::new(seed);
     let mut r_cfg = root.sub("swarm");
@@ -755,6 +1115,8 @@ fn gen_scenario(seed: u64) -> Scenario {
             stagger: 0,
             driver: None,
             recompile: 0,
+            live: None,
+            analysis: false,
         });
     }
     // jobs that include one generated library file (never seen by this process before)
@@ -817,6 +1179,46 @@ fn gen_scenario(seed: u64) -> Scenario {
             }
         }
     }
+    // family: the shape of the CLI. One or more jobs are live sessions (audio thread + compile
+    // thread of their own); the others stay ordinary compile+run jobs, or the session is alone
+    let mut r_live = root.sub("live");
+    if r_live.chance(1, 5) {
+        libs.clear();
+        let n_live = r_live.range(1, 2) as usize;
+        jobs.truncate(if r_live.chance(1, 3) { n_live } else { 2.max(n_live) });
+        for j in jobs.iter_mut().take(n_live) {
+            *j = gen_live_job(&mut r_live);
+        }
+        for j in jobs.iter_mut().skip(n_live) {
+            j.driver = None;
+            j.recompile = 0;
+            if j.src.load().0.contains("include(") {
+                j.src = Src::Text(gen_text(&mut r_live));
+            }
+        }
+    }
+    // family: language-server analyses. Some or all jobs only analyse their buffer (front end
+    // only, about a tenth of a compile+run job, so many more schedules fit the budget); with
+    // `typing` set the buffers are successive keystrokes of one text (prefixes cut at line ends)
+    let mut r_an = root.sub("analysis");
+    if r_an.chance(1, 6) {
+        let all = r_an.chance(1, 2);
+        let typing = r_an.chance(1, 3);
+        let base = jobs[0].src.load().0;
+        let n = jobs.len();
+        for (i, j) in jobs.iter_mut().enumerate() {
+            if j.live.is_some() || j.driver.is_some() || !(all || i % 2 == 0) {
+                continue;
+            }
+            j.analysis = true;
+            j.recompile = 0;
+            if typing && i > 0 {
+                let lines: Vec<&str> = base.lines().collect();
+                let keep = (lines.len() * (n - i)).div_ceil(n).max(1);
+                j.src = Src::Text(lines[..keep].join("\n") + "\n");
+            }
+        }
+    }
     if r_cfg.chance(1, 2) {
         let mut r_st = root.sub("stagger");
         for j in jobs.iter_mut() {
@@ -846,6 +1248,7 @@ fn gen_scenario(seed: u64) -> Scenario {
         // bucket backend interned strings legitimately never move, so the fault would be illegal
         relocate: false,
         schedule: None,
+        preempt_in_lock: root.sub("preempt-in-lock").chance(1, 3),
     }
 }
 
@@ -887,6 +1290,7 @@ fn judge(sc: &Scenario, persist_dir: &str) -> serde_json::Value {
 }
 
 fn judge_once(sc: &Scenario, persist_dir: &str) -> serde_json::Value {
+    mimium_lang::interner::VERIF_PREEMPT_INSIDE_SESSION_LOCK.store(sc.preempt_in_lock, std::sync::atomic::Ordering::Relaxed);
     for (name, content) in &sc.libs {
         let _ = std::fs::write(scratch_dir().join(name), content);
     }
@@ -919,7 +1323,17 @@ fn judge_once(sc: &Scenario, persist_dir: &str) -> serde_json::Value {
     counters.insert("executions_completed".into(), json!(ST_EXECUTIONS.swap(0, std::sync::atomic::Ordering::Relaxed)));
     counters.insert("recompiles".into(), json!(sc.jobs.iter().map(|j| j.recompile as u64).sum::<u64>()));
     counters.insert("jobs".into(), json!(sc.jobs.len()));
+    counters.insert("analysis_jobs".into(), json!(sc.jobs.iter().filter(|j| j.analysis).count()));
+    counters.insert("live_sessions".into(), json!(sc.jobs.iter().filter(|j| j.live.is_some()).count()));
+    counters.insert("live_swaps_applied".into(), json!(ST_LIVE_SWAPS.swap(0, std::sync::atomic::Ordering::Relaxed)));
+    counters.insert(
+        "live_swaps_while_compile_thread_inside_a_compilation".into(),
+        json!(ST_LIVE_SWAPS_WHILE_COMPILING.swap(0, std::sync::atomic::Ordering::Relaxed)),
+    );
+    counters.insert("live_failed_edits".into(), json!(ST_LIVE_FAILED_EDITS.swap(0, std::sync::atomic::Ordering::Relaxed)));
+    counters.insert("live_blocks_played".into(), json!(ST_LIVE_BLOCKS.swap(0, std::sync::atomic::Ordering::Relaxed)));
     counters.insert("relocate_fault_runs".into(), json!(sc.relocate as u64));
+    counters.insert("preempt_inside_session_lock_runs".into(), json!(sc.preempt_in_lock as u64));
     counters.insert("pct_runs".into(), json!(matches!(sc.sched, SchedKind::Pct(_)) as u64));
     counters.insert(
         "jobs_with_diagnostics".into(),
@@ -933,9 +1347,9 @@ fn judge_once(sc: &Scenario, persist_dir: &str) -> serde_json::Value {
         "{:016x}",
         fnv(format!(
             "{}|{:?}|{}",
-            sc.jobs.iter().map(|j| format!("{}:{}:{}", j.src.label(), j.n, j.wasm)).collect::<Vec<_>>().join(","),
+            sc.jobs.iter().map(|j| format!("{}:{}:{}:{}:{}", j.src.label(), j.n, j.wasm, j.live.as_ref().map(|l| l.edits.len()).unwrap_or(0), j.analysis)).collect::<Vec<_>>().join(","),
             sc.sched,
-            sc.relocate
+            sc.preempt_in_lock
         )
         .as_bytes())
     );
@@ -986,7 +1400,7 @@ fn main() {
             let t: u64 = args[2].parse().unwrap();
             sc.libs.clear();
             sc.jobs = (0..args[4].parse::<usize>().unwrap())
-                .map(|_| Job { src: Src::Text(gen_special_of(&mut r, t)), n: 2, wasm: false, driver: None, recompile: args.get(7).and_then(|s| s.parse().ok()).unwrap_or(0), stagger: r.below(args.get(6).and_then(|s| s.parse().ok()).unwrap_or(1)) as u32 })
+                .map(|_| Job { src: Src::Text(gen_special_of(&mut r, t)), n: 2, wasm: false, driver: None, live: None, analysis: false, recompile: args.get(7).and_then(|s| s.parse().ok()).unwrap_or(0), stagger: r.below(args.get(6).and_then(|s| s.parse().ok()).unwrap_or(1)) as u32 })
                 .collect();
             sc.iterations = args[5].parse().unwrap();
             println!("{}", serde_json::to_string_pretty(&sc).unwrap());
